@@ -254,3 +254,38 @@ def c05e(F, R):
                       + (" (a read-modify-write instruction both uses and redefines the register; the use comes first)" if "kill_reg" in calls or "writes_to" in calls else ""), loc(s))
         if n < 2:
             R.bad(f"{name}|cuts", f"{name}: expected the visited cut and the found cut, saw {n}", f["sp"])
+
+
+@rule("C05", "C05.i.no-arithmetic-write-escapes-the-zero-register-check", floor=4)
+def c05i(F, R):
+    """`can_skip_save_checks()` (which both the save-to-zero check and the dead-assignment check ask) exempts node kinds that write a register only as a side effect - entries, jumps that discard their link, CSR accesses - and never an instruction that computes a value: evaluated for every computing kind with rd = x0 and every combination of x0 / non-x0 sources and zero / non-zero immediate, it must answer false, or `li zero, 5` / `addi x0, x0, 1` is no longer reported"""
+    from .nodeprops import eval_prop, Unx
+    from .p_c08 import PNODE
+    computing = {"Arith": ["rs1", "rs2"], "IArith": ["rs1"], "Load": ["rs1"], "LoadAddr": []}
+    vs = F.variants(PNODE)
+    p = F.method(PNODE, "can_skip_save_checks", trait="InstructionProperties")
+    sp = F.fn(p)["sp"]
+    for v, srcs in computing.items():
+        if v not in vs:
+            raise Anchor(f"ParserNode::{v} not found")
+        envs = []
+        for s0 in ("X0", "X5"):
+            for imm in (0, 5):
+                for inst in ({"Arith": ["Add", "Xor"], "IArith": ["Addi", "Xori", "Lui"], "Load": ["Lw"], "LoadAddr": ["La"]}[v]):
+                    env = {"rd": "X0", "imm": imm, "inst": inst}
+                    for s_ in srcs:
+                        env[s_] = s0
+                    envs.append(env)
+        wrong = []
+        for env in envs:
+            try:
+                r = eval_prop(F, "can_skip_save_checks", v, env)
+            except Unx as ex:
+                wrong.append(f"UNEXTRACTABLE ({ex})")
+                break
+            if r is not False:
+                wrong.append(", ".join(f"{k}={x}" for k, x in sorted(env.items())))
+        if wrong:
+            R.bad(f"{v}", f"can_skip_save_checks answers true for the computing instruction kind {v} with {wrong[0]} ({len(wrong)} of {len(envs)} operand combinations): an arithmetic write to the zero register - `li zero, 5`, `addi x0, x0, 1`, `lui x0, 16` - is then reported neither as saving to zero nor as an unused value", sp)
+        else:
+            R.ok(f"{v}", detail=f"{v} is never exempt ({len(envs)} operand combinations with rd = x0)", where=sp)
